@@ -184,12 +184,16 @@ LEMMA(lemma_CS_FluorLine)
 
 /* (c) the lines of one shell, enumerated: every macro value of the name-derived block (plus the Siegbahn groups of
  * that shell) is checked with a constant `line`, for all Z and E.  Complete for the class: the block is finite. */
-#ifndef ENUM_LO
+#if !defined(ENUM_LO)
 #define ENUM_LO SPEC_K_LINES_LO
 #define ENUM_HI SPEC_K_LINES_HI
 #define ENUM_CLS K_SHELL
 #define ENUM_EXTRA1 KA_LINE
 #define ENUM_EXTRA2 KB_LINE
+#endif
+#ifdef ENUM_NOEXTRA
+#undef ENUM_EXTRA1
+#undef ENUM_EXTRA2
 #endif
 LEMMA(lemma_CS_FluorLine_enum)
 {
